@@ -9,6 +9,7 @@ import (
 	"math"
 	"sort"
 	"strings"
+	"sync"
 )
 
 type Term = string
@@ -59,6 +60,7 @@ type SMT struct {
 	nfresh    int
 	declared  map[string]bool
 	funcSorts map[string]string // prelude function name -> result sort (for documentation only)
+	mu        sync.Mutex
 }
 
 func newSMT() *SMT {
@@ -399,6 +401,10 @@ func (s *SMT) zero(t types.Type) Term {
 
 // header renders everything that precedes the function's own line stream.
 func (s *SMT) header(logicOpts string) string {
+	// queries of one function are rendered concurrently, and rendering may intern the
+	// string constants of the preludes: serialise it
+	s.mu.Lock()
+	defer s.mu.Unlock()
 	var sb strings.Builder
 	sb.WriteString(logicOpts)
 	sb.WriteString(basePrelude)
